@@ -760,6 +760,10 @@ def run(tier, procs=None, only=None):
     )
 
 
+# every real-library oracle of this property (each returns (reproduced, detail)); used to confirm structural facts that carry no replay of their own
+ALL_REPLAYS = [lambda c: replay_chunks('log', (12, 6, 5), ((6, 6), (6,), (5,)))(c), replay_template]
+
+
 def replay(data):
     import ast
     import re
